@@ -113,6 +113,7 @@ func (ctx *checkerContext) inConstructor(pkgPath string, typeName string) bool {
 // @immutable
 type receiverInfo struct {
 	name     string
+	obj      types.Object // the receiver variable itself (nil if unknown)
 	typeName string
 	pkgPath  string
 }
@@ -141,6 +142,7 @@ func extractReceiverInfo(pass *analysis.Pass, funcDecl *ast.FuncDecl) *receiverI
 
 	return &receiverInfo{
 		name:     recvName,
+		obj:      pass.TypesInfo.Defs[recvField.Names[0]],
 		typeName: typeInfo.TypeName,
 		pkgPath:  typeInfo.PkgPath,
 	}
@@ -381,8 +383,11 @@ func checkReceiverIncDec(
 		return nil
 	}
 
-	// Check if the identifier is the receiver
+	// Check if the identifier is the receiver (and not a variable shadowing its name)
 	if ident.Name != ctx.currentReceiver.name {
+		return nil
+	}
+	if obj := ctx.pass.TypesInfo.Uses[ident]; obj != nil && ctx.currentReceiver.obj != nil && obj != ctx.currentReceiver.obj {
 		return nil
 	}
 
@@ -500,8 +505,11 @@ func checkReceiverReassignment(
 		return nil
 	}
 
-	// Check if the identifier is the receiver
+	// Check if the identifier is the receiver (and not a variable shadowing its name)
 	if ident.Name != ctx.currentReceiver.name {
+		return nil
+	}
+	if obj := ctx.pass.TypesInfo.Uses[ident]; obj != nil && ctx.currentReceiver.obj != nil && obj != ctx.currentReceiver.obj {
 		return nil
 	}
 
